@@ -246,17 +246,34 @@ func (r *Runner) exec(ctx boltz.MutateContext, s *Step, salt int) (ret string, e
 		ctx = sctx
 	}
 	switch s.op() {
-	case "create":
-		if str(a["via"]) == "staff" {
-			err = S.Staff.Create(ctx, r.staff(a))
-		} else {
-			err = S.People.Create(ctx, r.person(a))
+	case "create", "update":
+		// the caller's struct is the caller's: it is re-used (here: overwritten) right after the call returns, long before the
+		// commit -- listeners must be handed the state that was written, not whatever the struct holds by then
+		scribble := func(p *schema.Person) {
+			if salt%2 == 1 {
+				n := "scribbled-after-the-call"
+				p.Id, p.Name, p.Nick, p.Roles = "not-an-entity", n, &n, []string{n}
+			}
 		}
-	case "update":
 		if str(a["via"]) == "staff" {
-			err = S.Staff.Update(ctx, r.staff(a), checker(a))
+			e := r.staff(a)
+			if s.op() == "create" {
+				err = S.Staff.Create(ctx, e)
+			} else {
+				err = S.Staff.Update(ctx, e, checker(a))
+			}
+			scribble(&e.Person)
+			if salt%2 == 1 {
+				e.Grade, e.Lead = "scribbled", !e.Lead
+			}
 		} else {
-			err = S.People.Update(ctx, r.person(a), checker(a))
+			e := r.person(a)
+			if s.op() == "create" {
+				err = S.People.Create(ctx, e)
+			} else {
+				err = S.People.Update(ctx, e, checker(a))
+			}
+			scribble(e)
 		}
 	case "delete":
 		if str(a["via"]) == "staff" {
@@ -413,6 +430,7 @@ func (r *Runner) Run(steps []Step) bool {
 		var opErr error
 		divergedAt := -1
 		preRegistered := false
+		actRegistered := false
 		fn := func(ctx boltz.MutateContext) error {
 			// bbolt.Batch may re-invoke the body: everything the body records is reset on entry
 			opErr = nil
@@ -423,6 +441,9 @@ func (r *Runner) Run(steps []Step) bool {
 				r.StepsRun++
 				switch s.op() {
 				case "commitAction":
+					if k == 0 && actRegistered {
+						continue
+					}
 					ctx.AddCommitAction(env.commitAction)
 					continue
 				case "preCommit":
@@ -515,6 +536,11 @@ func (r *Runner) Run(steps []Step) bool {
 				return nil
 			})
 			preRegistered = true
+		}
+		// likewise a commit action: registered on the context the application hands to Update / Batch
+		if len(body) > 0 && body[0].op() == "commitAction" && (i+r.Idx)%2 == 0 {
+			mctx.AddCommitAction(env.commitAction)
+			actRegistered = true
 		}
 		var txErr error
 		if str(b.args()["kind"]) == "batch" {
